@@ -505,7 +505,10 @@ type Fetcher struct {
 	Avail map[string]bool // nil: everything available
 	Log   *Log
 	Keys  map[string]eval.VariableKey // expected key per registered name (nil: not checked)
-	Raw   bool                        // hand integers over as Go int instead of int64 (a fetcher is free to do so; the engine then sees a value no operator but eq/ne accepts)
+	// DNEAsValue: an unavailable variable is reported as cached and Get returns the eval.DNE marker
+	// (the other documented way of saying "not available": a DNE value in the bindings)
+	DNEAsValue bool
+	Raw        bool // hand integers over as Go int instead of int64 (a fetcher is free to do so; the engine then sees a value no operator but eq/ne accepts)
 }
 
 func NewFetcher(u *Universe, cc *eval.Config, log *Log) *Fetcher {
@@ -536,6 +539,9 @@ func (f *Fetcher) Get(k eval.VariableKey, s string) (eval.Value, error) {
 		if want != k {
 			f.Log.KeyErrs = append(f.Log.KeyErrs, fmt.Sprintf("Get(%d,%q): registered key is %d", k, s, want))
 		}
+	}
+	if f.Avail != nil && !f.Avail[s] && f.DNEAsValue {
+		return eval.DNE, nil
 	}
 	if f.Avail != nil && !f.Avail[s] {
 		// like the repository's map fetcher: a variable that is not cached cannot be fetched.
@@ -592,7 +598,7 @@ func (f *Fetcher) Set(k eval.VariableKey, s string, v eval.Value) error {
 }
 
 func (f *Fetcher) Cached(k eval.VariableKey, s string) bool {
-	if f.Avail == nil {
+	if f.Avail == nil || f.DNEAsValue {
 		return true
 	}
 	return f.Avail[s]
